@@ -126,6 +126,107 @@ def construct_worker(analysis: Analysis, spec) -> dict:
     return {"cls": cls, "label": label, "opts": list(opts), "rows": rows}
 
 
+def starts_with_attr(v, owner_key, attr: str) -> bool:
+    """Is the string value `owner.attr` followed by something (a + concatenation or an f-string)?"""
+    want = ("attr", owner_key, attr)
+    parts = getattr(v, "parts", None)
+    if parts:
+        return isinstance(parts[0], V) and parts[0].key() == want
+    k = v.key() if isinstance(v, V) else None
+    if isinstance(k, tuple) and len(k) > 1 and isinstance(k[1], str):
+        return k[1].startswith(f"binop:Add:{want!r}:")
+    return False
+
+
+def downstream_worker(analysis: Analysis, flavour: str) -> dict:
+    """Publish / subscribe callback events of the MQTT transport: which topic and retain flag they carry."""
+    ctx = analysis.context(analysis.versions[-1], "mqtt", flavour)
+    out = {"pub": 0, "pub_bad_prefix": [], "pub_bad_retain": [], "sub": 0, "sub_bad_prefix": []}
+    for qual, arg in (("gateway_mqtt:MQTTTransport.send", Sym(("root", "message"), "str")), ("gateway_mqtt:MQTTTransport.handle_subscription", Sym(("root", "topic"), "str"))):
+        it = analysis.new_interp(ctx)
+        st, gw = analysis.gateway_state(it)
+        tr = Sym(("root", "TR"), ("cls", ctx.transport))
+        st.mem[(tr.key(), "a", "gateway")] = gw
+        if qual.endswith("handle_subscription"):
+            arg.minsep = {"/": 5}
+        for kind, s, v in analysis.run_root(it, qual, [arg], tr, st):
+            for e in s.events:
+                if e.kind != "cb" or not e.args:
+                    continue
+                if qual.endswith(".send"):
+                    out["pub"] += 1
+                    if not starts_with_attr(e.args[0], tr.key(), "out_prefix"):
+                        out["pub_bad_prefix"].append(repr(e.args[0].key())[:120])
+                    ret = e.args[3] if len(e.args) > 3 else e.kwargs.get("retain")
+                    if not (isinstance(ret, V) and ret.key() == ("attr", tr.key(), "_retain")):
+                        out["pub_bad_retain"].append(repr(ret.key())[:80] if isinstance(ret, V) else "missing")
+                else:
+                    out["sub"] += 1
+                    if not starts_with_attr(e.args[0], tr.key(), "in_prefix"):
+                        out["sub_bad_prefix"].append(repr(e.args[0].key())[:120])
+    return out
+
+
+def _sections_compare_ok(analysis: Analysis, helper) -> bool:
+    """version_at_least returns `sections(version)[:n] >= sections(minimum)[:n]` with n = max of both section
+    counts: the two sides are the same sequence builder (a comprehension over range(n) of `.section(i)`, directly
+    or through one module-level helper) applied to the parsed first and second parameter."""
+    fn = helper.node
+    params = [a.arg for a in fn.args.args]
+    if len(params) < 2:
+        return False
+    env = {}
+    for n in ast.walk(fn):
+        if isinstance(n, ast.Assign) and len(n.targets) == 1 and isinstance(n.targets[0], ast.Name):
+            env[n.targets[0].id] = n.value
+
+    def parsed_from(name: str):
+        """Which parameter does the local `name` hold, parsed as AwesomeVersion?"""
+        v = env.get(name)
+        if isinstance(v, ast.Call) and unparse(v.func) == "AwesomeVersion" and len(v.args) == 1 and isinstance(v.args[0], ast.Name):
+            src = v.args[0].id
+            return src if src in params else parsed_from(src) if src != name else None
+        return None
+
+    def builder(expr, depth=0):
+        """-> (subject name, count expression text) of a section-sequence builder."""
+        comp = None
+        if isinstance(expr, (ast.ListComp, ast.GeneratorExp)):
+            comp = expr
+        elif isinstance(expr, ast.Call) and isinstance(expr.func, ast.Name) and expr.func.id in ("tuple", "list") and len(expr.args) == 1 and isinstance(expr.args[0], (ast.ListComp, ast.GeneratorExp)):
+            comp = expr.args[0]
+        if comp is not None and len(comp.generators) == 1 and not comp.generators[0].ifs:
+            g = comp.generators[0]
+            e = comp.elt
+            if isinstance(g.iter, ast.Call) and unparse(g.iter.func) == "range" and len(g.iter.args) == 1 and isinstance(g.target, ast.Name) and isinstance(e, ast.Call) and isinstance(e.func, ast.Attribute) and e.func.attr == "section" and isinstance(e.func.value, ast.Name) and len(e.args) == 1 and unparse(e.args[0]) == g.target.id:
+                return e.func.value.id, unparse(g.iter.args[0])
+            return None
+        if isinstance(expr, ast.Call) and isinstance(expr.func, ast.Name) and depth < 2:
+            callee = analysis.p.funcs.get(f"{helper.module.label}:{expr.func.id}")
+            if callee is not None and not expr.keywords:
+                rets = [r for r in ast.walk(callee.node) if isinstance(r, ast.Return)]
+                cps = [a.arg for a in callee.node.args.args]
+                if len(rets) == 1 and len(cps) == len(expr.args) and all(isinstance(a, ast.Name) for a in expr.args):
+                    inner = builder(rets[0].value, depth + 1)
+                    if inner is not None:
+                        m = {cp: a.id for cp, a in zip(cps, expr.args)}
+                        return m.get(inner[0], inner[0]), m.get(inner[1], inner[1])
+        return None
+
+    for n in ast.walk(fn):
+        if isinstance(n, ast.Return) and isinstance(n.value, ast.Compare) and len(n.value.ops) == 1 and isinstance(n.value.ops[0], ast.GtE):
+            lb, rb = builder(n.value.left), builder(n.value.comparators[0])
+            if not lb or not rb or lb[1] != rb[1]:
+                return False
+            if parsed_from(lb[0]) != params[0] or parsed_from(rb[0]) != params[1]:
+                return False
+            cnt = env.get(lb[1])
+            if not (isinstance(cnt, ast.Call) and unparse(cnt.func) == "max" and len(cnt.args) == 2):
+                return False
+            return {unparse(a) for a in cnt.args} == {f"{lb[0]}.sections", f"{rb[0]}.sections"}
+    return False
+
+
 def callsite_keywords(analysis: Analysis) -> List[dict]:
     root = analysis.p.root
     sources = []
@@ -207,13 +308,7 @@ def version_rules(analysis: Analysis, res: RuleResult) -> None:
                     res.add("C18-R4", f"{fn} / no raw AwesomeVersion ordering between a configured / presented version and a table version", ok, common.where(analysis, mod, n), "sanitiser only (lower bound 1.4, inside try)" if ok else f"`{unparse(n)}`: AwesomeVersion does not order versions with different section counts consistently ('2.0.0' >= '2.0' is False), so '2.0.0' selects the tables of an older protocol")
     helper = analysis.p.funcs.get("const:version_at_least")
     if helper is not None:
-        h = unparse(helper.node)
-        okh = False
-        for n in ast.walk(helper.node):
-            if isinstance(n, ast.Return) and isinstance(n.value, ast.Compare) and len(n.value.ops) == 1 and isinstance(n.value.ops[0], ast.GtE):
-                l, r = unparse(n.value.left), unparse(n.value.comparators[0])
-                first, second = helper.node.args.args[0].arg, helper.node.args.args[1].arg
-                okh = ".section(" in l and ".section(" in r and "range(" in l and "range(" in r and l.startswith(f"[{first}.section") and r.startswith(f"[{second}.section") and ".sections" in h
+        okh = _sections_compare_ok(analysis, helper)
         res.add("C18-R4", "const:version_at_least / compares the numeric sections, missing sections as zero", okh, common.where(analysis, helper, helper.node), "[v.section(i) for i in range(n)] >= [m.section(i) for i in range(n)]")
         users = set()
         for mod in common.core_modules(analysis):
@@ -345,11 +440,11 @@ def run(analysis: Analysis, tier: str) -> RuleResult:
             o.construct = "in_prefix honoured / " + o.construct
     res.reindex()
     send = analysis.p.func("gateway_mqtt:MQTTTransport.send")
-    res.add("C18-R1", "out_prefix is honoured: published topics are out_prefix + topic", "self.out_prefix + topic" in unparse(send.node), common.where(analysis, send, send.node), "topic = self.out_prefix + topic")
     sub = analysis.p.func("gateway_mqtt:MQTTTransport.handle_subscription")
-    res.add("C18-R1", "in_prefix is honoured: subscriptions are in_prefix + template", "self.in_prefix + topic" in unparse(sub.node), common.where(analysis, sub, sub.node), "topic = self.in_prefix + topic")
-    retain_ok = "self._retain" in unparse(send.node)
-    res.add("C18-R1", "retain is honoured: the flag is passed to the publish callback", retain_ok, common.where(analysis, send, send.node), "pub_callback(topic, payload, qos, self._retain)")
+    for row in common.pmap(analysis, downstream_worker, ["sync"]):
+        res.add("C18-R1", "out_prefix is honoured: published topics are out_prefix + topic", row["pub"] > 0 and not row["pub_bad_prefix"], common.where(analysis, send, send.node), f"{row['pub']} publish event(s), topic = transport.out_prefix + mapped topic" if not row["pub_bad_prefix"] else f"published topic {row['pub_bad_prefix'][0]} does not start with the configured out_prefix")
+        res.add("C18-R1", "retain is honoured: the flag is passed to the publish callback", row["pub"] > 0 and not row["pub_bad_retain"], common.where(analysis, send, send.node), "pub_callback(topic, payload, qos, transport._retain)" if not row["pub_bad_retain"] else f"retain argument is {row['pub_bad_retain'][0]}")
+        res.add("C18-R1", "in_prefix is honoured: subscriptions are in_prefix + template", row["sub"] > 0 and not row["sub_bad_prefix"], common.where(analysis, sub, sub.node), f"{row['sub']} subscribe event(s), topic = transport.in_prefix + template" if not row["sub_bad_prefix"] else f"subscribed topic {row['sub_bad_prefix'][0]} does not start with the configured in_prefix")
     res.units = {"classes": list(CLASS_OPTS), "constructor_runs": n, "call_sites": len(sites), "source_digest": analysis.p.digest()}
     res.not_decided = ["the version-floor rule for three-part / unknown versions (AwesomeVersion ordering)", "intent of positional arguments in the README's first example"]
     res.trusted = ["sa/interp.py argument binding", "sa/extmodel.py"]
